@@ -101,6 +101,7 @@ func (e *Engine) verifyFunction(name string) error {
 	}
 	c := e.contracts[name]
 	e.curFn = name
+	e.kindSigs = map[string]*types.Signature{} // call-out kinds are named after parameters and methods: per function
 	e.curProps = nil
 	if c != nil {
 		e.curProps = c.Props
@@ -350,9 +351,6 @@ func (st *State) modularCall(fr *Frame, in ssa.Instruction, fn *ssa.Function, c 
 		}
 	}
 	st.setArr(cntName, "Int", fmt.Sprintf("(+ %s 1)", cn))
-	if _, ok := e.kindSigs[kind]; !ok {
-		e.kindSigs[kind] = fn.Signature
-	}
 	if in != nil {
 		if sv, ok := in.(ssa.Value); ok {
 			st.setResult(fr, in, packResults(e, sv.Type(), parts))
